@@ -390,6 +390,13 @@ func (g *ExprGen) bool1(depth int) mt.Expr {
 	case 7, 8, 9:
 		return g.tick(g.bin("or", g.boolOperand(depth-1), g.boolOperand(depth-1)))
 	case 10:
+		switch r.Intn(3) {
+		case 0:
+			// not on a number: zero is false, every other integer is true, written as a literal or computed
+			return mt.Un{Op: "not", E: mt.I([]int64{0, 1, 2, 0, 10}[r.Intn(5)])}
+		case 1:
+			return mt.Un{Op: "not", E: g.int1(depth - 1)}
+		}
 		return mt.Un{Op: "not", E: g.bool1(depth - 1)}
 	case 11:
 		op := []string{"starts with", "ends with", "in", "not in", "matches"}[r.Intn(5)]
